@@ -46,13 +46,15 @@ def parseOp (j : Json) : Except String Op := do
   | "count" => pure (.count (← argNat j "p"))
   | "isEmpty" => pure (.isEmpty (← argNat j "p"))
   | "contains" => pure (.contains (← argNat j "p") (← argNat j "c"))
+  | "write" => pure (.write (← argNat j "c") (← argNat j "a") (← argInt j "v"))
+  | "commit" => pure .commit
   | _ => throw s!"unknown op {k}"
 
 def jNat (n : Nat) : Json := .num (JsonNumber.fromNat n)
 def jInt (n : Int) : Json := .num (JsonNumber.fromInt n)
 
 def errStr : Err → String
-  | .unrepeatable => "UnrepeatableReadError" | .other => "other"
+  | .unrepeatable => "UnrepeatableReadError" | .other => "other" | .optimistic => "OptimisticCheckError"
 
 def resJson : Res → Json
   | .val v => Json.mkObj [("val", jInt v)]
@@ -70,7 +72,9 @@ def snapJson (attrs : List Attr) (cids pids : List Nat) (s : Sess) : Json :=
     ("c", .arr ((cids.filter (fun c => (s.c c).present)).map (fun c =>
       let o := s.c c
       Json.mkObj [("id", jNat c), ("vals", pairs attrs o.vals), ("dbvals", pairs attrs o.dbvals),
-                  ("rbits", .arr ((attrs.filter o.rbits).map jNat).toArray)])).toArray),
+                  ("rbits", .arr ((attrs.filter o.rbits).map jNat).toArray),
+                  ("wbits", .arr ((attrs.filter o.wbits).map jNat).toArray)])).toArray),
+    ("toSave", .arr (s.toSave.map jNat).toArray),
     ("kids", .arr (pids.filterMap (fun p => (s.kids p).map (fun sd =>
       Json.mkObj [("p", jNat p), ("items", .arr (sd.items.map jNat).toArray), ("full", .bool sd.full),
                   ("count", match sd.count with | none => .null | some n => jNat n)]))).toArray)]
